@@ -134,7 +134,7 @@ func runStormInner(s *Storm) (res stormResult) { //nolint:cyclop,gocyclo,maintid
 						m.Add(ref.AttrData, synth(r.n(30), r.next(), ""))
 					default:
 						auth = false
-						_, _ = c.Sock.WriteTo(ref.EncodeChannelData(ChannelSlots[r.n(3)], synth(r.n(30), r.next(), ""), true), w.srvAddr)
+						_, _ = c.Sock.WriteTo(ref.EncodeChannelData(ChannelSlots[r.n(3)], synth(r.n(30), r.next(), ""), true), w.srvFor(c.Sock))
 						mu.Lock()
 						actions++
 						mu.Unlock()
@@ -150,7 +150,7 @@ func runStormInner(s *Storm) (res stormResult) { //nolint:cyclop,gocyclo,maintid
 						mm.Add(ref.AttrNonce, []byte(nonce))
 						raw = ref.AddIntegrity(mm.Encode(), ref.LongTermKey(u.Name, Realm, u.Pass))
 					}
-					_, _ = c.Sock.WriteTo(raw, w.srvAddr)
+					_, _ = c.Sock.WriteTo(raw, w.srvFor(c.Sock))
 					mu.Lock()
 					actions++
 					mu.Unlock()
